@@ -63,8 +63,14 @@ def check(ctx):
     cells = [("mono_P", (1, 1, 1)), ("tri2_P1", (1, 1, 1)), ("tri1", (2, 1, 1)), ("hcp", (1, 1, 1)), ("tri3_P1", (1, 1, 1))]
     if not ctx.quick:
         cells += [("bcc_conv", (1, 1, 1)), ("tri2_Pm1", (1, 1, 1)), ("ortho_C", (1, 1, 1)), ("si_prim", (1, 1, 1)), ("tri1", (3, 1, 1)), ("nacl_prim", (1, 1, 1)), ("rhombo2", (1, 1, 1)), ("sheared", (1, 1, 1)), ("mono_C", (1, 1, 1))]
-    for cname, diag in cells:
-        sc = make_supercell(base_cells()[cname], diag, rng=rng, shuffle=True)
+    described = [make_supercell(base_cells()[cname], diag, rng=rng, shuffle=True) for cname, diag in cells]
+    # the same crystals in strongly sheared (non-reduced) lattice bases, coordinates wrapped into [0,1)
+    for cname in (("tri2_P1", "hcp") if ctx.quick else ("tri2_P1", "hcp", "mono_P", "tri3_P1", "si_prim")):
+        for U in ([[1, 0, 0], [2, 1, 0], [1, -3, 1]], [[2, 1, 0], [1, 1, 0], [0, 1, 1]]):
+            scu = make_supercell(base_cells()[cname], (1, 1, 1), unimodular=U)
+            scu["positions"] = scu["positions"] % 1.0
+            described.append(scu)
+    for sc in described:
         N = len(sc["numbers"])
         at = atoms_of(sc)
         L = np.asarray(sc["lattice"], float)
@@ -74,7 +80,9 @@ def check(ctx):
         shells = sorted(set(np.round(dist[dist > 1e-8], 6).tolist()))
         cuts = [None]
         if shells:
-            cuts.append((shells[0] + (shells[1] if len(shells) > 1 else shells[0] + 1.0)) / 2 if len(shells) > 1 else shells[0] + 0.5)
+            for pos in sorted({1, len(shells) // 2, len(shells) - 1} - {0}):
+                if pos < len(shells):
+                    cuts.append((shells[pos - 1] + shells[pos]) / 2)
             cuts.append(shells[-1] + 0.3)
         for order in (2, 3, 4):
             if order == 4 and N > 2 or order == 3 and N > 3:
